@@ -162,3 +162,21 @@ mutant("c20-assign-falls-back-to-declare",
        [(B, "            if !scopes.assign(name, rhs_val) {\n                return new_loc_error(Error::Undefined{\n                    name: name.to_string(),\n                });\n            }",
             "            if !scopes.assign(name, rhs_val.clone()) {\n                let _ = scopes.declare(name, *name_loc, rhs_val);\n            }")],
        [("C20", "R20.4")])
+
+# ---- C04 ---------------------------------------------------------------------
+mutant("c04-dynamic-scoping-in-call",
+       [(E, "            CallBinding::Func{bindings, mut closure, stmts} => {\n                eval_stmts(\n                    context,\n                    &mut closure,",
+            "            CallBinding::Func{bindings, closure: _closure, stmts} => {\n                eval_stmts(\n                    context,\n                    scopes,")],
+       [("C04", "R04.3")], note="function bodies run on the caller's chain")
+mutant("c04-anon-fn-captures-empty-chain",
+       [(E, "        RawExpr::Func{args, collect_args, stmts} => {\n            let closure = scopes.clone();",
+            "        RawExpr::Func{args, collect_args, stmts} => {\n            let closure = ScopeStack::new(vec![]);")],
+       [("C04", "R04.1")])
+mutant("c04-block-without-new-scope",
+       [(E, "        Stmt::Block{block} => {\n            let v = eval_stmts_in_new_scope(context, scopes, block)",
+            "        Stmt::Block{block} => {\n            let v = eval_stmts_with_scope_stack(context, scopes, block)")],
+       [("C04", "R04.4")], note="bare-block declarations leak into the enclosing scope")
+mutant("c04-deep-copying-scope-clone",
+       [("src/eval/scope.rs", "#[derive(Clone, Debug)]\npub struct ScopeStack(Vec<Arc<Mutex<Scope>>>);",
+         "#[derive(Debug)]\npub struct ScopeStack(Vec<Arc<Mutex<Scope>>>);\n\nimpl Clone for ScopeStack {\n    fn clone(&self) -> Self {\n        ScopeStack(self.0.iter().map(|s| Arc::new(Mutex::new(s.try_lock().unwrap().clone()))).collect())\n    }\n}")],
+       [("C04", "R04.2")], note="closures capture by value")
